@@ -341,3 +341,167 @@ Proof.
   - cbn [fst snd]. intros He. inversion He; subst e. destruct (K EDuplicate s1 eq_refl eq_refl) as [Kt ->].
     cbn. repeat split; auto.
 Qed.
+
+(* ------------------------------------------------------------------ pickling *)
+(* an instance obtained through the transaction is bound to an explicit connection: __getstate__ refuses it before anything
+   else happens -- the step is the identity (but the statement log reset), whatever the instance has queued, on a running
+   and on a finished transaction *)
+Lemma pickle_refused_proof :
+  forall (cfg : config) (ops : list op) (h x : nat),
+    let s := run cfg init ops in
+    nth h (slots s) None = Some (Txn, x) ->
+    step cfg s (OPickle h) = (Raise EPickling, with_log s []).
+Proof.
+  intros cfg ops h x s Hh. unfold step. cbn [run_op].
+  unfold handle, bind, gets, ret. cbv beta iota. cbn [slots with_log]. rewrite Hh. cbv beta iota. cbn [fst snd].
+  reflexivity.
+Qed.
+
+(* syncUpdate leaves the id and the cached attributes of its instance alone (returning or raising) *)
+Lemma sync_update_keeps_inst cfg x s :
+  i_id (get_inst (snd (so_sync_update cfg Par x s)) Par x) = i_id (get_inst s Par x) /\
+  i_vals (get_inst (snd (so_sync_update cfg Par x s)) Par x) = i_vals (get_inst s Par x).
+Proof.
+  unfold so_sync_update, bind, gets. cbv beta iota.
+  destruct (dirty (get_inst s Par x)) eqn:Hd; [|split; reflexivity].
+  assert (Hin : (x < length (heap (cn s Par)))%nat).
+  { destruct (Nat.lt_ge_cases x (length (heap (cn s Par)))) as [L|L]; [exact L|].
+    exfalso. unfold get_inst in Hd. rewrite nth_overflow in Hd by exact L. discriminate. }
+  unfold db_update_cols, stmt_write. destruct (pending s) eqn:Ep; [split; reflexivity|].
+  match goal with |- context [if ?b then _ else _] => destruct b end; [split; reflexivity|].
+  cbn [fst snd]. unfold upd_inst, modify. cbv beta iota. cbn [fst snd].
+  rewrite get_inst_with_heap. cbn [heap cn with_committed with_log par].
+  rewrite nth_set_nth_same by exact Hin. split; reflexivity.
+Qed.
+
+(* a parent-side instance is accepted: nothing queued (or an eager class) -- nothing happens, the state is the attributes
+   the instance carries; a lazyUpdate instance with queued assignments -- exactly what syncUpdate does, an exception of the
+   UPDATE leaves pickle.dumps, and the pickled state is the attributes the instance carried (syncUpdate does not touch them) *)
+Lemma pickle_accepted_proof :
+  forall (cfg : config) (ops : list op) (h x : nat),
+    let s := run cfg init ops in
+    let i := get_inst s Par x in
+    nth h (slots s) None = Some (Par, x) ->
+    (lazy cfg && dirty i = false -> step cfg s (OPickle h) = (Ret (RState (i_id i) (i_vals i)), with_log s [])) /\
+    (lazy cfg && dirty i = true ->
+     snd (step cfg s (OPickle h)) = snd (step cfg s (OSyncUpdate h)) /\
+     match fst (step cfg s (OSyncUpdate h)) with
+     | Ret _ => fst (step cfg s (OPickle h)) = Ret (RState (i_id i) (i_vals i))
+     | Raise e => fst (step cfg s (OPickle h)) = Raise e
+     end).
+Proof.
+  intros cfg ops h x s i Hh.
+  unfold step. cbn [run_op].
+  unfold handle, bind, gets, ret. cbv beta iota. cbn [slots with_log]. rewrite Hh. cbv beta iota. cbn [fst snd].
+  unfold so_pickle. cbn [per_conn]. unfold bind, gets, ret. cbv beta iota.
+  change (get_inst (with_log s []) Par x) with i.
+  split.
+  - intros Hd. rewrite Hd. reflexivity.
+  - intros Hd. rewrite Hd.
+    pose proof (sync_update_keeps_inst cfg x (with_log s [])) as [K1 K2].
+    change (get_inst (with_log s []) Par x) with i in K1, K2.
+    destruct (so_sync_update cfg Par x (with_log s [])) as [[u|e] s1]; cbn [fst snd] in *.
+    + split; [reflexivity|]. rewrite K1, K2. reflexivity.
+    + split; reflexivity.
+Qed.
+
+(* ------------------------------------------------------------------ select: its own specification *)
+(* fetching the rows of a select never raises (every row comes with its values: no statement, only cache bookkeeping) *)
+Lemma total_cull_tick cfg sd roots : total (cull_tick cfg sd roots).
+Proof. unfold cull_tick, set_cch. total_tac; apply total_cull. Qed.
+Lemma total_cache_get cfg sd id roots : total (cache_get cfg sd id roots).
+Proof. unfold cache_get, ensure_factory, set_cch. total_tac; apply total_cull_tick. Qed.
+Lemma total_so_get_row cfg sd id r roots : total (so_get cfg sd id (Some r) roots).
+Proof.
+  unfold so_get. apply total_bind; [apply total_cache_get|intros [o|]].
+  - unfold select_init, upd_inst. total_tac.
+  - unfold new_inst, select_init, upd_inst, cache_put, set_cch. apply total_bind.
+    + intros s. eexists; eexists; reflexivity.
+    + intro. total_tac.
+Qed.
+Lemma total_select_rows cfg sd rows : forall acc, total (select_rows cfg sd rows acc).
+Proof.
+  induction rows as [|[id r] rest IH]; intros acc; cbn [select_rows]; [apply total_ret|].
+  apply total_bind; [apply total_so_get_row|intro; apply IH].
+Qed.
+
+Lemma Forall2_weaken {X Y} (P Q : X -> Y -> Prop) l l' : (forall a b, P a b -> Q a b) -> Forall2 P l l' -> Forall2 Q l l'.
+Proof. intros H. induction 1; constructor; auto. Qed.
+
+(* ... and the n-th object handed out is an instance of the n-th row's id *)
+Lemma ids_select_rows cfg sd rows : forall acc ids,
+  hoare (fun s => cache_ok s sd /\ Forall2 (fun o id => known s sd o id) acc ids)
+        (select_rows cfg sd rows acc)
+        (fun l s => cache_ok s sd /\ Forall2 (fun o id => known s sd o id) l (ids ++ map fst rows))
+        (fun _ => True).
+Proof.
+  induction rows as [|[id r] rest IH]; intros acc ids; cbn [select_rows].
+  - apply hoare_ret. intros s H. cbn. rewrite app_nil_r. exact H.
+  - eapply hoare_bind with (R := fun o s => cache_ok s sd /\ Forall2 (fun o id => known s sd o id) (acc ++ [o]) (ids ++ [id])).
+    + intros s [Hs Hf]. pose proof (ok_so_get cfg sd id (Some r) acc s Hs) as H.
+      pose proof (ext_so_get cfg sd id (Some r) acc s) as He.
+      destruct (so_get cfg sd id (Some r) acc s) as [[o|e] s']; cbn in *; auto.
+      destruct H as [H1 H2]. split; auto. apply Forall2_app; [|constructor; [exact H2|constructor]].
+      eapply Forall2_weaken; [|exact Hf]. intros a b K. eapply Rext_known; [apply He|exact K].
+    + intros o. cbn [map fst]. replace (ids ++ id :: map fst rest) with ((ids ++ [id]) ++ map fst rest) by (rewrite <- app_assoc; reflexivity).
+      apply IH.
+Qed.
+
+Lemma known_ids s sd l ids : Forall2 (fun o id => known s sd o id) l ids -> map (fun o => i_id (get_inst s sd o)) l = ids.
+Proof. induction 1 as [|o id l ids [_ K] _ IH]; cbn; [reflexivity|]. rewrite K, IH. reflexivity. Qed.
+
+Lemma wrapper_access_run cfg sd via m s :
+  wrapper_access cfg sd via m s =
+    if via then (if dead s sd then (Raise EAssertion, s) else if m && negb (wrapOk cfg) then (Raise EAttribute, s) else (Ret tt, s))
+    else (Ret tt, s).
+Proof.
+  unfold wrapper_access. destruct via; [|reflexivity]. unfold bind, gets. cbv beta iota.
+  destruct (dead s sd); [reflexivity|]. destruct (m && negb (wrapOk cfg)); reflexivity.
+Qed.
+
+(* list(Cls.select(connection=...)) / conn.Cls.select(): on a finished transaction AssertionError; through the wrapper on an
+   interpreter where ConnWrapper cannot bind methods AttributeError; else it returns, and the ids of the instances handed out
+   are the ids of the rows of the OWN connection's view, in order: through the parent the committed table, through the
+   transaction its pending view (the committed table before its first write) *)
+Lemma select_proof :
+  forall (cfg : config) (ops : list op) (sd : side) (via : bool) (keep : option nat),
+    let s := run cfg init ops in
+    let r := fst (step cfg s (OSelect sd via keep)) in
+    if dead s sd then r = Raise EAssertion
+    else if via && negb (wrapOk cfg) then r = Raise EAttribute
+    else exists l, r = Ret (RObjs l) /\ map fst l = map fst (t_rows (view s sd)).
+Proof.
+  intros cfg ops sd via keep s r.
+  assert (Hc : cache_ok (with_log s []) sd) by (apply (reach_cache_ok cfg ops sd)).
+  change (dead s sd) with (dead (with_log s []) sd). change (view s sd) with (view (with_log s []) sd).
+  unfold r, step. clear r. set (s0 := with_log s []) in *. clearbody s0.
+  set (res := fst (run_op cfg (OSelect sd via keep) s0)).
+  assert (Key : (dead s0 sd = true -> res = Raise EAssertion) /\
+                (dead s0 sd = false -> via && negb (wrapOk cfg) = true -> res = Raise EAttribute) /\
+                (dead s0 sd = false -> via && negb (wrapOk cfg) = false ->
+                 exists l, res = Ret (RObjs l) /\ map fst l = map fst (t_rows (view s0 sd)))).
+  { split; [|split]; unfold res; cbn [run_op]; unfold or_empty_slot; unfold bind at 1; rewrite wrapper_access_run.
+    - intros Hd. rewrite Hd. destruct via.
+      + destruct keep; reflexivity.
+      + cbv beta iota. unfold bind at 1. unfold stmt_read. rewrite Hd. destruct keep; reflexivity.
+    - intros Hd Hv. apply andb_true_iff in Hv. destruct Hv as [-> Hw]. rewrite Hd, Hw. cbn [andb]. destruct keep; reflexivity.
+    - intros Hd Hv. rewrite Hd.
+      assert (Ew : (if via then (if true && negb (wrapOk cfg) then (Raise EAttribute, s0) else (@Ret unit tt, s0)) else (Ret tt, s0)) = (Ret tt, s0)).
+      { destruct via; [|reflexivity]. cbn [andb] in *. rewrite Hv. reflexivity. }
+      rewrite Ew. clear Ew. cbv beta iota.
+      unfold bind at 1. unfold stmt_read. rewrite Hd.
+      set (s1 := with_log s0 (SSelect sd :: log s0)).
+      assert (Hc1 : cache_ok s1 sd) by exact Hc.
+      unfold bind at 1.
+      destruct (total_select_rows cfg sd (t_rows (view s0 sd)) [] s1) as (objs & s2 & Es).
+      pose proof (ids_select_rows cfg sd (t_rows (view s0 sd)) [] [] s1 (conj Hc1 (Forall2_nil _))) as Hi.
+      rewrite Es in *. cbn [app] in Hi. destruct Hi as [_ Hk].
+      unfold bind at 1. unfold gets at 1. cbv beta iota zeta.
+      exists (map (fun o => (i_id (get_inst s2 sd o), slot_of s2 sd o)) objs).
+      split.
+      + destruct keep; unfold bind, push_slot, modify, ret; reflexivity.
+      + rewrite map_map. cbn [fst]. apply known_ids. exact Hk. }
+  destruct Key as (K1 & K2 & K3).
+  destruct (dead s0 sd); [apply K1; reflexivity|].
+  destruct (via && negb (wrapOk cfg)); [apply K2; reflexivity|apply K3; reflexivity].
+Qed.
